@@ -268,6 +268,13 @@ def gen_set(fl, rnd, batch):
             return rnd.random() * top * (0.999 if fam == "tsukamoto" else 1.0)
 
         deg = np.array([one() for _ in range(batch)]) if (batch and rnd.random() < 0.85) else one()
+        # degrees held as whole numbers (a rule that fired fully / not at all) or in single precision, where that is exact
+        vals = np.atleast_1d(deg)
+        c = rnd.random()
+        if c < 0.12 and fam != "tsukamoto" and np.all((vals == 0.0) | (vals == 1.0)):
+            deg = deg.astype(np.int64) if isinstance(deg, np.ndarray) else int(deg)
+        elif c < 0.2 and np.all(vals * 16 == np.floor(vals * 16)):
+            deg = deg.astype(np.float32) if isinstance(deg, np.ndarray) else np.float32(deg)
         acts.append((t, deg))
     # under a sum-like aggregation Tsukamoto degrees of a repeated term may exceed the height: the monitor counts those as out of domain
     aggregation = rnd.choice(N.SNORMS + [None, None, "Maximum"])
